@@ -243,7 +243,10 @@ fn main() {
     if args.len() < 2 {
         harness_error("usage: cedar-sim run <world|ID> <quick|thorough> | replay <file> | digest <world> <n> <workers>");
     }
-    warm_up();
+    // a panic while warming up (cedar code on the main thread) is reported, never silent
+    if let Err(p) = std::panic::catch_unwind(warm_up) {
+        harness_error(&format!("panic during warm-up (cedar code run on the main thread panicked): {}", hashseam::panic_message(&p)));
+    }
     let code = match args[1].as_str() {
         "run" => {
             let tier = match args.get(3).map(|s| s.as_str()) {
